@@ -312,3 +312,50 @@ TARGETS = {
     'T19b': {'file': 'pm/sop.py', 'build': build_T19b},
     'T19s': {'file': 'sc/sop.py', 'build': build_T19s},
 }
+
+
+# ------------------------------------------------------------------ T19m
+def build_T19m(tree):
+    """`pm.content.RealWorldValueMapping.__init__`: LUT xor slope/intercept, LUT only for integer ranges, LUT length"""
+    fn = find_func(tree, 'RealWorldValueMapping.__init__')
+    body = strip_doc(fn.body)
+    k = None
+    for i, s_ in enumerate(body):
+        if isinstance(s_, ast.Assign) and ast.unparse(s_.targets[0]) == 'is_floating_point':
+            k = i
+    if k is None or ast.unparse(body[k].value) != 'any((isinstance(v, float) for v in value_range))':
+        raise Unsupported('is_floating_point = any(isinstance(v, float) for v in value_range) not found')
+    iff = body[k + 1]
+    if not (isinstance(iff, ast.If) and ast.unparse(iff.test) == 'lut_data is not None' and iff.orelse):
+        raise Unsupported('LUT / linear branch of RealWorldValueMapping.__init__ not found')
+
+    class L(ast.NodeTransformer):
+        def visit_Call(self, n):
+            if isinstance(n.func, ast.Name) and n.func.id == 'len' and ast.unparse(n.args[0]) == 'lut_data':
+                return ast.Name(id='lut_data', ctx=ast.Load())      # the optional parameter stands for its length
+            return self.generic_visit(n)
+    pre = Pre19(_repo_src(), drop_attr_bases={'self'})
+    blk = ast.If(test=iff.test, body=list(iff.body) + [ast.Return(value=ast.Constant(value=1))],
+                 orelse=list(iff.orelse) + [ast.Return(value=ast.Constant(value=2))])
+    blk = L().visit(ast.parse(ast.unparse(blk)).body[0])
+    # stores to self.* carry the validated values into the data set; they do not decide anything
+    def strip(stmts):
+        out = []
+        for s_ in stmts:
+            if isinstance(s_, ast.Assign) and isinstance(s_.targets[0], ast.Attribute) and ast.unparse(s_.targets[0].value) == 'self':
+                continue
+            if isinstance(s_, ast.If):
+                s_ = ast.If(test=s_.test, body=strip(s_.body) or [ast.Pass()], orelse=strip(s_.orelse))
+            out.append(s_)
+        return out
+    stmts = _fix(pre.stmts(strip([blk])))
+    text = translate_block(
+        stmts, 'rwvmInit',
+        [('lut_data', 'optint'), ('slope', 'optint'), ('intercept', 'optint'), ('is_floating_point', 'bool')],
+        {'value_range[0]': ('int', 'first'), 'value_range[1]': ('int', 'last')},
+        doc='`RealWorldValueMapping.__init__`: 1 = look-up table, 2 = linear.  `lut_data` stands for `len(lut_data)`, '
+            '`slope` / `intercept` only for being given, `first` / `last` are `int(value_range[k])`')
+    return text, span_sha([body[k], iff])
+
+
+TARGETS['T19m'] = {'file': 'pm/content.py', 'build': build_T19m}
